@@ -357,6 +357,23 @@ def grid_population(schema, start_id=1):
     return insts
 
 
+def ref_population(schema, start_id=1):
+    """entity-valued attributes referring to complex instances through every part, next to plain instances of every part
+    type (the targets a wrong-type reference can be given)"""
+    i = start_id
+    cx = G.Inst(i, [("BK_D", [("tok", "1")]), ("BK_P", [("tok", "'red'")]), ("BK_ROOT", [("tok", "7")])])
+    cx2 = G.Inst(i + 1, [("BK_D", [("null",)]), ("BK_ROOT", [("tok", "8")])])
+    pd = G.Inst(i + 2, [("BK_D", [("tok", "9"), ("tok", "2")])])
+    pp = G.Inst(i + 3, [("BK_P", [("tok", "10"), ("tok", "'blue'")])])
+    pr = G.Inst(i + 4, [("BK_ROOT", [("tok", "11")])])
+    rf = lambda k, p, d, r, l: G.Inst(i + 5 + k, [("RF_E", [p, d, r, ("aggr", l)])])
+    R = lambda x: ("ref", x.id)
+    N = ("null",)
+    return [cx, cx2, pd, pp, pr,
+            rf(0, R(cx), R(cx), R(cx), [R(cx), R(pp)]), rf(1, R(pp), R(cx2), R(cx2), []), rf(2, N, R(pd), R(pr), [R(cx)]),
+            rf(3, R(cx), N, R(pd), [R(pp), R(cx)])]
+
+
 def near_miss_enum(rng, items, shape=None):
     """an enumeration token that is NOT one of `items` but close to one: proper prefix, extension, one-letter edit,
     deletion, two items glued, an item of another enumeration"""
@@ -424,6 +441,10 @@ ABSTRACT_EXPRESS = ("ENTITY abs_e\n  ABSTRACT SUPERTYPE OF (ONEOF (abs_s));\n  a
                     "ENTITY d_sub\n  SUBTYPE OF (d_sup);\n  d_c : OPTIONAL STRING;\nDERIVE\n  SELF\\d_sup.d_a : INTEGER := 1;\nEND_ENTITY;\n\n"
                     "ENTITY en_e;\n  en_c : colour_t;\n  en_l : LIST [0:?] OF colour_t;\n  en_b : LIST [0:?] OF BOOLEAN;\n"
                     "  en_g : OPTIONAL LIST [0:?] OF LOGICAL;\n  en_r : LIST [0:?] OF REAL;\n  en_s : LIST [0:?] OF STRING;\nEND_ENTITY;\n\n"
+                    "ENTITY bk_root\n  SUPERTYPE OF (bk_d ANDOR bk_p);\n  bk_id : INTEGER;\nEND_ENTITY;\n\n"
+                    "ENTITY bk_d\n  SUBTYPE OF (bk_root);\n  bk_n : OPTIONAL INTEGER;\nEND_ENTITY;\n\n"
+                    "ENTITY bk_p\n  SUBTYPE OF (bk_root);\n  bk_col : STRING;\nEND_ENTITY;\n\n"
+                    "ENTITY rf_e;\n  rf_p : OPTIONAL bk_p;\n  rf_d : OPTIONAL bk_d;\n  rf_r : OPTIONAL bk_root;\n  rf_l : LIST [0:?] OF bk_p;\nEND_ENTITY;\n\n"
                     "ENTITY dp_e;\n  dp_st : st_t;\n  dp_sl : LIST [0:?] OF st_t;\n  dp_so : OPTIONAL st_t;\n  dp_1 : s1;\n  dp_1b : s1b;\n"
                     "  dp_2 : OPTIONAL s2;\n  dp_3 : s3;\n  dp_4 : s4;\n  dp_l2 : LIST [0:?] OF s2;\n  dp_l3 : LIST [0:?] OF s3;\n"
                     "  dp_l4 : LIST [0:?] OF s4;\nEND_ENTITY;\n\n"
@@ -462,6 +483,14 @@ class SchemaX(G.Schema):
                                       G.Entity("en_e", None, [G.Attr("en_c", "ENUM", False), G.Attr("en_l", "AGG_ENUM", False),
                                                               G.Attr("en_b", "AGG_BOOL", False), G.Attr("en_g", "AGG_LOG", True),
                                                               G.Attr("en_r", "AGG_REAL", False), G.Attr("en_s", "AGG_STR", False)]),
+                                      # an ANDOR family whose complex instance (BK_D&BK_P&BK_ROOT) has a first part (BK_D) that
+                                      # is not the domain of rf_p: references to it are accepted through another part
+                                      G.Entity("bk_root", None, [G.Attr("bk_id", "INTEGER", False)], andor_root=True),
+                                      G.Entity("bk_d", "bk_root", [G.Attr("bk_n", "INTEGER", True)], andor_member=True),
+                                      G.Entity("bk_p", "bk_root", [G.Attr("bk_col", "STRING", False)], andor_member=True),
+                                      G.Entity("rf_e", None, [G.Attr("rf_p", "ENTITY", True, "bk_p"), G.Attr("rf_d", "ENTITY", True, "bk_d"),
+                                                              G.Attr("rf_r", "ENTITY", True, "bk_root"),
+                                                              G.Attr("rf_l", "AGG_ENT", False, "bk_p")]),
                                       G.Entity("dp_e", None, [G.Attr("dp_st", "XENUM", False), G.Attr("dp_sl", "AGG_XENUM", False),
                                                               G.Attr("dp_so", "XENUM", True), G.Attr("dp_1", "SEL_S1", False),
                                                               G.Attr("dp_1b", "SEL_S1B", False), G.Attr("dp_2", "SEL_S2", True),
@@ -706,11 +735,29 @@ def violations(rng, schema, pop, per_class=1):
     for (ii, pi, ai, a) in positions(lambda a, v, i: a.kind == "ENTITY" and v[0] == "ref"):
         out.append(Violation("dangling_reference", pop[ii].id, replaced(ii, _set_val(pop[ii], pi, ai, ("ref", free_id + 7))),
                              where(pop[ii], pi, ai, a)))
-    for (ii, pi, ai, a) in positions(lambda a, v, i: a.kind == "ENTITY" and v[0] == "ref"):
-        wrong = [x.id for x in pop if not x.is_complex and not schema.is_a(x.parts[0][0].lower(), a.target)]
-        if wrong:
-            out.append(Violation("wrong_type_reference", pop[ii].id,
-                                 replaced(ii, _set_val(pop[ii], pi, ai, ("ref", rng.choice(wrong)))), where(pop[ii], pi, ai, a)))
+    # reference to an instance whose type is not the attribute's entity type: for every entity-valued attribute position
+    # (up to a budget) every wrong *type* present in the population once - plain instances of each entity, including the
+    # entities that occur as (first) parts of complex instances the same attribute type legitimately refers to
+    rpos = [(ii, pi, ai, a) for ii, inst in enumerate(pop) for pi, (n, vs) in enumerate(inst.parts)
+            for ai, (a, v) in enumerate(zip(G.part_attrs(schema, inst, pi), vs)) if a.kind == "ENTITY" and v[0] == "ref"]
+    rng.shuffle(rpos)
+    pairs = {}
+    for (ii, pi, ai, a) in rpos:
+        for x in pop:
+            if not x.is_complex and not schema.is_a(x.parts[0][0].lower(), a.target) and x.id != pop[ii].id:
+                pairs.setdefault((a.target, x.parts[0][0]), (ii, pi, ai, a, x.id))
+    # interleave the attribute domains so that a small budget still meets every domain
+    by_target = {}
+    for (tg, ty), v in sorted(pairs.items()):
+        by_target.setdefault(tg, []).append((ty, v))
+    order = []
+    while any(by_target.values()):
+        for tg in sorted(by_target):
+            if by_target[tg]:
+                order.append(by_target[tg].pop(rng.randrange(len(by_target[tg]))))
+    for ty, (ii, pi, ai, a, wid) in order[:max(8, 8 * per_class)]:
+        out.append(Violation("wrong_type_reference", pop[ii].id, replaced(ii, _set_val(pop[ii], pi, ai, ("ref", wid))),
+                             where(pop[ii], pi, ai, a) + f":{a.target.upper()}<-{ty}"))
     for (ii, pi, ai, a) in positions(lambda a, v, i: a.kind in ("AGG_ENT", "AGG_ENTS") and v[0] == "aggr" and len(v[1]) >= 1):
         v = pop[ii].parts[pi][1][ai]
         nv = ("aggr", [("ref", free_id + 9)] + list(v[1][1:]))
@@ -756,7 +803,8 @@ def violations(rng, schema, pop, per_class=1):
     for ii in cx[:per_class]:
         c = pop[ii].copy()
         c.parts[rng.randrange(len(c.parts))] = ("NO_SUCH_ENTITY", [("tok", "1")])
-        out.append(Violation("unknown_keyword", c.id, replaced(ii, c), "complex-part"))
+        # the instance is created without that part: what refers to it through the lost part's type is no longer conforming
+        out.append(Violation("unknown_keyword", c.id, replaced(ii, c), "complex-part", lost=[c.id]).close(pop))
     # duplicate id
     if len(pop) >= 2:
         a, b = rng.sample(range(len(pop)), 2)
@@ -774,7 +822,7 @@ def violations(rng, schema, pop, per_class=1):
         v = pop[ii].parts[pi][1][ai]
         bad = _set_val(pop[ii], pi, ai, ("tok", v[1][:-1]))
         out.append(Violation("unterminated_string", pop[ii].id, replaced(ii, bad), where(pop[ii], pi, ai, a),
-                             lost=[x.id for x in pop[ii + 1:]]).close(pop))
+                             lost=[x.id for x in pop[ii + 1:]] + ([pop[ii].id] if pop[ii].is_complex else [])).close(pop))
     return out
 
 
